@@ -152,7 +152,9 @@ impl<'a> G<'a> {
                 if n == 2 && self.rng.chance(1, 2) { (format!("sqrt({})", a), r) } else { (format!("({})^(1|{})", a, n), r) }
             }
             11 => { let (a, da) = self.expr(depth - 1);
-                let (b, db) = if self.rng.chance(2, 3) { (format!("{} ({})", coef(self.rng), a.clone()), da.clone()) } else { self.expr(depth - 1) };
+                // (a zero argument does not make a mismatch of dimensionalities acceptable)
+                let (a, da) = if self.rng.chance(1, 5) { (format!("0 ({})", a), da) } else { (a, da) };
+                let (b, db) = if self.rng.chance(2, 3) { (format!("{} ({})", coef(self.rng), a.clone()), da.clone()) } else if self.rng.chance(1, 2) { let (b, db) = self.expr(depth - 1); (format!("0 ({})", b), db) } else { self.expr(depth - 1) };
                 let f = *self.rng.pick(&["hypot", "atan2"]);
                 let r = match (&da, &db) { (Ok(x), Ok(y)) if x == y => if f == "hypot" { Ok(x.clone()) } else { Ok([("radian".to_string(), 1)].into_iter().collect()) }, _ => Err(()) };
                 (format!("{}({}, {})", f, a, b), r) }
@@ -213,7 +215,8 @@ pub fn run_c02(o: &Opts) -> i32 {
     let mut g = G { db: &db, rng: &mut rng, fstats: BTreeMap::new() };
     // fixed corpus first
     for (t, d) in [("meter^0", "-"), ("(m^2)^0 + 1", "-"), ("m^0 s", "s:1"), ("'a'^0", "-"),
-                   ("5 and 3 meter", "refuse"), ("3 meter and 5", "refuse"), ("12 second xor 5", "refuse"), ("0xff or 3 byte", "refuse"), ("meter and meter", "refuse"), ("6 and 3", "-"), ("6 m << 2", "m:1"), ("6 << 2 m", "refuse")] {
+                   ("5 and 3 meter", "refuse"), ("3 meter and 5", "refuse"), ("12 second xor 5", "refuse"), ("0xff or 3 byte", "refuse"), ("meter and meter", "refuse"), ("6 and 3", "-"), ("6 m << 2", "m:1"), ("6 << 2 m", "refuse"),
+                   ("hypot(3 m, 0 s)", "refuse"), ("hypot(0 m, 4 kg)", "refuse"), ("hypot(0, 5 W)", "refuse"), ("atan2(0 m, 1 s)", "refuse"), ("0 m + 0 s", "refuse"), ("0 m - 1 s", "refuse"), ("0 m mod 3 s", "refuse"), ("hypot(0 m, 0 m)", "m:1")] {
         writeln!(req, "{}", req_line(t)).unwrap();
         writeln!(aux, "{}", json!({"alg": d})).unwrap();
     }
